@@ -659,7 +659,15 @@ func (sc *SubCache[EntityT, ExcerptT, CacheT]) evictIfNeeded() {
 		return
 	}
 
-	for _, id := range sc.lru.GetOldestToNewest() {
+	ids := sc.lru.GetOldestToNewest()
+	for i, id := range ids {
+		if i == len(ids)-1 {
+			// the most recently used entity is the one the caller has just added and is about
+			// to hand out: when every older one has uncommitted operations it must not be
+			// evicted (and locked) in their place
+			break
+		}
+
 		b := sc.cached[id]
 		if b.NeedCommit() {
 			continue
